@@ -32,8 +32,10 @@ def gen_case(rng):
             ops.append(("detmap", rng.choice(dmm_ids)))
         elif r < 0.75:
             ops.append(("slm", rng.choice(dmm_ids)))
-        elif r < 0.88:
+        elif r < 0.85:
             ops.append(("use_variable",))
+        elif r < 0.90:
+            ops.append(("measure",))
         else:
             ops.append(("inspect", rng.choice(["get_duration", "current_phase_ref"])))
     return dev, ops
@@ -61,6 +63,7 @@ def run_case(dev, ops):
         mode = None           # None / "xy" / "ising"
         slm = None            # dmm id of the configured SLM mask
         parametrized = False
+        measured = False
         nvar = 0
         for i, op in enumerate(ops):
             why = None
@@ -90,6 +93,10 @@ def run_case(dev, ops):
                 cid = op[1]
                 # (a second SLM configuration / an SLM on an already configured DMM are not rules of the property: not judged)
                 call = lambda: seq.config_slm_mask(["q0"], cid)   # noqa: E731
+            elif k == "measure":
+                if mode is None or measured:
+                    continue
+                call = lambda: seq.measure("XY" if mode == "xy" else ("ground-rydberg" if any(i.startswith("ryd") for i in used_ids) else "digital"))   # noqa: E731
             elif k == "use_variable":
                 if not names:
                     continue
@@ -103,6 +110,10 @@ def run_case(dev, ops):
                 if parametrized:
                     why = f"inspection call {op[1]} on a parametrized sequence"
                 call = (lambda: seq.get_duration()) if op[1] == "get_duration" else (lambda: seq.current_phase_ref("q0", "ground-rydberg" if mode != "xy" else "XY"))   # noqa: E731
+            if measured and k == "use_variable" and not parametrized:
+                why = why or "the sequence has been measured: first use of a variable after measure() on a built sequence (adds a delay)"
+            elif measured and k in ("declare", "detmap", "slm", "use_variable"):
+                why = why or "the sequence has been measured (a timeline-changing call: it declares a channel / configures a DMM or the SLM mask / adds a delay)"
             try:
                 call()
                 ok = True
@@ -124,6 +135,8 @@ def run_case(dev, ops):
                 slm = slm or op[1]
             elif k == "use_variable":
                 parametrized = True
+            elif k == "measure":
+                measured = True
             if seq.is_parametrized() != parametrized:
                 msgs.append(f"step {i} {op}: is_parametrized() is {seq.is_parametrized()} but a variable was {'used' if parametrized else 'not used'}")
                 return msgs
@@ -134,8 +147,11 @@ def run(rng, budget_s, known_match):
     import time
     t0 = time.time()
     failures, evals, samples, distinct = [], 0, [], set()
+    scripted = [(dict(reusable=False, n_dmm=1, with_mw=False), [("declare", "a", "ryd_a"), ("measure",), ("use_variable",)]),
+                (dict(reusable=False, n_dmm=1, with_mw=False), [("declare", "a", "ryd_a"), ("measure",), ("slm", "dmm_0"), ("detmap", "dmm_0"), ("declare", "b", "ram")]),
+                (dict(reusable=False, n_dmm=1, with_mw=False), [("declare", "a", "ryd_a"), ("use_variable",), ("detmap", "dmm_0"), ("detmap", "dmm_0"), ("inspect", "get_duration")])]
     while time.time() - t0 < budget_s:
-        dev, ops = gen_case(rng)
+        dev, ops = scripted.pop(0) if scripted else gen_case(rng)
         try:
             msgs = run_case(dev, ops)
         except Exception as ex:
